@@ -41,37 +41,37 @@ type FuncInfo struct {
 }
 
 type World struct {
-	repo      string
-	fset      *token.FileSet
-	pkgs      map[string]*packages.Package // by import path (all transitively loaded)
-	byName    map[string]*packages.Package
-	targets   []*packages.Package
-	contracts map[string]*Contract // key: types.Func.FullName()
-	conList   []*Contract
-	conObj    map[*Contract]*types.Func
-	funcs     map[string]*FuncInfo // key FullName
-	specFuncs map[string]*SpecFunc
-	specOrder []*SpecFunc
-	axioms    []*Clause
-	lemmas    []*Clause
-	ghosts    map[string]GhostVar
-	ghostOrd  []string
-	consts    map[string]*CE
-	rawSMT    []string
-	trusted   []string
-	sliceSorts map[string]string // sort name -> elem sort
-	sliceOrd   []string
-	heapSorts  map[string]string // heap array name -> SMT sort
-	heapOrd    []string
-	strLits    map[string]string // literal -> const name
-	strOrd     []string
-	typeIDs    map[string]int
-	typeOrd    []string
-	warnings   []string
-	axiomSMT   []string // translated axioms (filled by prepareGlobals)
-	specSMT    []string // translated spec funcs
+	repo           string
+	fset           *token.FileSet
+	pkgs           map[string]*packages.Package // by import path (all transitively loaded)
+	byName         map[string]*packages.Package
+	targets        []*packages.Package
+	contracts      map[string]*Contract // key: types.Func.FullName()
+	conList        []*Contract
+	conObj         map[*Contract]*types.Func
+	funcs          map[string]*FuncInfo // key FullName
+	specFuncs      map[string]*SpecFunc
+	specOrder      []*SpecFunc
+	axioms         []*Clause
+	lemmas         []*Clause
+	ghosts         map[string]GhostVar
+	ghostOrd       []string
+	consts         map[string]*CE
+	rawSMT         []string
+	trusted        []string
+	sliceSorts     map[string]string // sort name -> elem sort
+	sliceOrd       []string
+	heapSorts      map[string]string // heap array name -> SMT sort
+	heapOrd        []string
+	strLits        map[string]string // literal -> const name
+	strOrd         []string
+	typeIDs        map[string]int
+	typeOrd        []string
+	warnings       []string
+	axiomSMT       []string // translated axioms (filled by prepareGlobals)
+	specSMT        []string // translated spec funcs
 	intrinsicsUsed map[string]bool
-	globalDecls []string
+	globalDecls    []string
 }
 
 func loadWorld(repo string, overlay map[string][]byte, trustedDir string) (*World, error) {
@@ -157,6 +157,41 @@ func loadWorld(repo string, overlay map[string][]byte, trustedDir string) (*Worl
 			c.Extern = true
 		}
 		specFiles = append(specFiles, sf)
+	}
+	modsets := map[string][]string{}
+	for _, sf := range specFiles {
+		for k, v := range sf.ModSets {
+			modsets[k] = v
+		}
+	}
+	var expand func(items []string, depth int) ([]string, error)
+	expand = func(items []string, depth int) ([]string, error) {
+		var out []string
+		for _, it := range items {
+			if strings.HasPrefix(it, "@") {
+				ms, ok := modsets[it[1:]]
+				if !ok || depth > 8 {
+					return nil, fmt.Errorf("unknown modset %s", it)
+				}
+				sub, err := expand(ms, depth+1)
+				if err != nil {
+					return nil, err
+				}
+				out = append(out, sub...)
+			} else {
+				out = append(out, it)
+			}
+		}
+		return out, nil
+	}
+	for _, sf := range specFiles {
+		for _, c := range sf.Contracts {
+			ex, err := expand(c.Modifies, 0)
+			if err != nil {
+				return nil, fmt.Errorf("%s: %s: %v", c.File, c.Header, err)
+			}
+			c.Modifies = ex
+		}
 	}
 	for _, sf := range specFiles {
 		for _, f := range sf.Funcs {
@@ -467,8 +502,15 @@ func (w *World) fieldHeap(owner *types.Named, path string, ft types.Type, bv boo
 	return
 }
 
-func (w *World) mapHeaps(k, v Sort) (dom, val, ln string) {
-	sfx := mangle(k) + "_" + mangle(v)
+func typeMangle(t types.Type) string {
+	s := types.TypeString(types.Unalias(t), func(p *types.Package) string { return p.Name() })
+	return strings.NewReplacer("*", "p", "[]", "sl", "[", "_", "]", "_", ".", "_", " ", "", "{", "", "}", "", "(", "", ")", "", ",", "_").Replace(s)
+}
+
+// mapHeapsT: one triple of heap arrays per Go map TYPE (not per sort), so that maps of different types never alias.
+func (w *World) mapHeapsT(m *types.Map, bv bool) (dom, val, ln string) {
+	k, v := w.sortOf(m.Key(), bv), w.sortOf(m.Elem(), bv)
+	sfx := typeMangle(m.Key()) + "_" + typeMangle(m.Elem())
 	dom, val, ln = "Mdom_"+sfx, "Mval_"+sfx, "Mlen_"+sfx
 	if _, ok := w.heapSorts[dom]; !ok {
 		w.heapSorts[dom] = "(Array Int (Array " + k + " Bool))"
